@@ -8,7 +8,7 @@ one() {
   name=$1; prop=${name%-*}; wt=/tmp/seedpar-$name
   git -C /repo worktree add -q --detach "$wt" HEAD 2>/dev/null || { echo -e "$name\t$prop\t2\tworktree-failed\t" > $2/$name.tsv; return; }
   if git -C "$wt" apply /verif/seeded/$name/patch.diff 2>/dev/null; then
-    res=$(LITHIUM_REPO=$wt timeout 1500 ./check $prop 2>&1); rc=$?
+    res=$(VERIF_OUT=$wt.out LITHIUM_REPO=$wt timeout 1500 ./check $prop 2>&1); rc=$?
     v=$(echo "$res" | grep -E "^VIOLATION" | head -1)
     d=$(echo "$res" | grep -a -E "^DETAIL" | head -1 | sed "s/^DETAIL property=[A-Z0-9]* //" | tr -c "[:print:]" "?" | cut -c1-160)
     kind="missed"
@@ -17,7 +17,7 @@ one() {
   else
     echo -e "$name\t$prop\t2\tpatch-does-not-apply\t" > $2/$name.tsv
   fi
-  git -C /repo worktree remove --force "$wt"
+  git -C /repo worktree remove --force "$wt"; rm -rf "$wt.out"
 }
 export -f one
 # C17 regenerates a tracked Lean file from the live parsers: run those seeds one at a time, last
